@@ -8,13 +8,15 @@
    Hold; its status is the documented aggregate of the task statuses; once reported ready it is never reported in
    progress again; Err names every failed task.
    PROVED BELOW: the aggregate is ready exactly when every task is ready; it equals the independent priority
-   statement when no task is in Wait; the ready flag is never reset, over every event list; over every history
-   without user aborts the engine never panics, the ready flag equals `every task is ready`, only unready tasks have
-   a running handler, and a ready change is final; finding 11 (a user abort of an UNREADY change panics and marks
-   the change ready) with its witness, and the behaviour of the proposed repair on that witness.
+   statement when no task is in Wait; the ready flag is never reset, over every event list; over every history in
+   which user aborts are issued on unready changes only (the property's quantifier): the engine never panics, the
+   ready flag equals `every task is ready`, only unready tasks have a running handler, a user abort of an unready
+   change never panics and never flags the change ready while a task is unready, and a ready change is final.
+   These are theorems about the code AFTER commit d3068df (finding 11 repaired: Abort / AbortLanes /
+   AbortUnreadyLanes evaluate readiness once, after all statuses have been rewritten); before it the abort
+   theorems were false (witness [C:Do; A:Done; B:Done], kept below as a regression example).
    NOT PROVED (monitored on every observed history instead, see notes/C03.md): settling (liveness); agreement of
-   isChangeWaiting with the memo-free statement when tasks are in Wait; the ready-once invariant for histories WITH
-   user aborts of unready changes under the repaired abort (abort_change_fixed); Err. *)
+   isChangeWaiting with the memo-free statement when tasks are in Wait; Err. *)
 From Coq Require Import List NArith ZArith Bool.
 Import ListNotations.
 Require Import V.models.TaskEngine V.proofs.TaskEngineProofs V.proofs.TaskEngineStatus V.proofs.TaskEngineReady.
@@ -39,55 +41,58 @@ Theorem C03_ready_flag_never_reset : forall (es : list event) (s : state),
 Proof. exact cready_run_events. Qed.
 Print Assumptions C03_ready_flag_never_reset.
 
-(* Ready-once, runner part. Over every non-empty graph and every event list without user aborts (Ensure in any order,
-   handler completions with any outcome incl. errors and the lane aborts they trigger, ticks, wait resolutions):
-   detectChangeReady never panics, the change is flagged ready exactly when every task is ready, and every task with
-   a running handler is unready. *)
-Theorem C03_runner_ready_consistent : forall (g : list tdesc) (es : list event),
-  g <> [] -> Forall no_uabort es ->
+(* Consistency of the ready flag. Over every non-empty graph and every event list in which user aborts are issued on
+   changes not reported ready (Ensure in any order, handler completions with any outcome incl. errors and the lane
+   aborts they trigger, ticks, wait resolutions, Change.Abort): no panic, the change is flagged ready exactly when
+   every task is ready, and every task with a running handler is unready. *)
+Theorem C03_ready_consistent : forall (g : list tdesc) (es : list event),
+  g <> [] -> guarded (init_state g) es ->
   let s := run_events (init_state g) es in
   panicked s = false /\ cready s = all_ready (tasks s) /\ (forall t, In t (running s) -> ready (st s t) = false).
-Proof. exact runner_ready_consistent. Qed.
-Print Assumptions C03_runner_ready_consistent.
+Proof. exact ready_consistent. Qed.
+Print Assumptions C03_ready_consistent.
 
-(* ... hence once a change has been reported ready it stays ready: after any further runner events the flag is set,
-   every task is ready, Change.Status is a ready status and nothing panicked. PARTIAL with respect to the property's
-   quantifier: histories containing user aborts of unready changes are excluded (finding 11 below shows the statement
-   is false for them on the current code). *)
-Theorem C03_ready_once_partial : forall (g : list tdesc) (es es' : list event),
-  g <> [] -> Forall no_uabort es -> Forall no_uabort es' ->
+(* Finding 11 repaired (replaces the former C03_abort_transient_ready_refuted): at any point of any such history a
+   user abort of an unready change does not panic, and afterwards the change is flagged ready exactly when every task
+   is ready - it is never marked ready while a task is unready. *)
+Theorem C03_abort_unready_never_panics : forall (g : list tdesc) (es : list event),
+  g <> [] -> guarded (init_state g) es ->
   let s := run_events (init_state g) es in
-  cready s = true ->
+  cready s = false ->
+  panicked (step s UAbort) = false /\ cready (step s UAbort) = all_ready (tasks (step s UAbort)).
+Proof. exact abort_unready_safe. Qed.
+Print Assumptions C03_abort_unready_never_panics.
+
+(* Ready once: after a change has been reported ready, any further events (user aborts being refused on ready
+   changes) leave it ready: flag set, every task ready, Change.Status a ready status, no panic. *)
+Theorem C03_ready_once : forall (g : list tdesc) (es es' : list event),
+  g <> [] -> guarded (init_state g) es ->
+  let s := run_events (init_state g) es in
+  guarded s es' -> cready s = true ->
   let s' := run_events s es' in
   cready s' = true /\ all_ready (tasks s') = true /\ ready (change_status (tasks s')) = true /\ panicked s' = false.
 Proof. exact ready_is_final. Qed.
-Print Assumptions C03_ready_once_partial.
+Print Assumptions C03_ready_once.
 
-(* FINDING 11 (KNOWN_FINDINGS key abort-unready-transient-ready): the statement `a user abort issued on an unready
-   change never makes detectChangeReady panic` is false of the faithful model; witness: tasks [C waits A,B] after A
-   and B completed, i.e. statuses [Do; Done; Done]. C: Do->Hold makes every task ready for an instant, the change
-   is marked ready, then A: Done->Undo trips the panic. Reproduced on the real code by the driver on every run. *)
-Theorem C03_abort_transient_ready_refuted : exists (g : list tdesc) (es : list event),
-  let s := run_events (init_state g) es in
-  cready s = false /\ panicked s = false /\
-  panicked (step s UAbort) = true /\ cready (step s UAbort) = true /\
-  map t_st (tasks (step s UAbort)) = [Hold; Undo; Done].
-Proof. exists f11_graph, f11_prefix. pose proof f11_witness as H. cbv zeta in *. tauto. Qed.
-Print Assumptions C03_abort_transient_ready_refuted.
-
-(* the proposed repair (notes/C03-fix.diff: readiness is evaluated once, after the abort has rewritten all statuses)
-   on the same state: no panic, every task aborted, the change stays unready *)
-Theorem C03_fixed_abort_on_witness :
+(* regression example, the former witness of finding 11: tasks [C waits A,B] after A and B completed, statuses
+   [Do; Done; Done], change unready: Change.Abort now gives [Hold; Undo; Undo], no panic, change still unready
+   (before d3068df: panic, change marked ready, [Hold; Undo; Done]) *)
+Theorem C03_abort_on_former_witness :
   let s := run_events (init_state f11_graph) f11_prefix in
-  panicked (abort_change_fixed s) = false /\ cready (abort_change_fixed s) = false /\
-  map t_st (tasks (abort_change_fixed s)) = [Hold; Undo; Undo].
-Proof. exact f11_fixed_witness. Qed.
-Print Assumptions C03_fixed_abort_on_witness.
+  map t_st (tasks s) = [Do; Done; Done] /\ cready s = false /\ panicked s = false /\
+  panicked (step s UAbort) = false /\ cready (step s UAbort) = false /\
+  map t_st (tasks (step s UAbort)) = [Hold; Undo; Undo].
+Proof. exact f11_witness. Qed.
+Print Assumptions C03_abort_on_former_witness.
 
-(* the guard of the REST API (abort only unready changes) is necessary: aborting a ready change whose task is Done
-   panics too, so the hypothesis `aborts are issued on unready changes only` of the property is not vacuous *)
+(* the guard is necessary: aborting a READY change whose task is Done panics (the internal check kept by the repair),
+   so the hypothesis `aborts are issued on unready changes only` is not vacuous *)
 Theorem C03_abort_ready_refuted : exists (g : list tdesc) (es : list event),
   let s := run_events (init_state g) es in
   cready s = true /\ panicked s = false /\ panicked (step s UAbort) = true.
 Proof. exists [([], [], true)], [Ensure [0]; Finish 0 OOk]. exact abort_ready_witness. Qed.
 Print Assumptions C03_abort_ready_refuted.
+
+(* non-vacuity of `guarded`: a history with a user abort of an unready change *)
+Example C03_guarded_nonvacuous : guarded (init_state f11_graph) (f11_prefix ++ [UAbort; Ensure [0; 1; 2]]).
+Proof. vm_compute. repeat split; intros; try reflexivity; try discriminate. Qed.
